@@ -56,7 +56,10 @@ class CFG:
         body = func.body if hasattr(func, "body") else func
         ends = self._build_block(body, [self.entry], [])
         for e in ends:
-            self._edge(e if isinstance(e, int) else e[0], self.exit_return, "fall")
+            if isinstance(e, int):
+                self._edge(e, self.exit_return, "fall")
+            else:
+                self._edge(e[0], self.exit_return, e[1] if e[1] in ("true", "false") else "fall")
 
     # ------------------------------------------------------------ building
     def _new(self, kind, stmt=None, expr=None) -> int:
@@ -67,6 +70,12 @@ class CFG:
         if stmt is not None:
             self.stmt_nodes.setdefault(stmt, []).append(n.id)
         return n.id
+
+    def _join(self, a, label) -> int:
+        """an empty node that keeps the branch label of a dangling edge (if without else, loop exit)"""
+        j = self._new("join")
+        self._edge(a, j, label)
+        return j
 
     def _edge(self, a, b, label="next"):
         if (b, label) not in self.succ[a]:
@@ -106,7 +115,7 @@ class CFG:
             n = self._new("if", st, st.test)
             self._connect(preds, n)
             t = self._build_block(st.body, [(n, "true")], frames)
-            f = self._build_block(st.orelse, [(n, "false")], frames) if st.orelse else [(n, "false")]
+            f = self._build_block(st.orelse, [(n, "false")], frames) if st.orelse else [self._join(n, "false")]
             return t + f
         if isinstance(st, ast.While):
             n = self._new("while", st, st.test)
@@ -115,7 +124,7 @@ class CFG:
             body_end = self._build_block(st.body, [(n, "true")], frames + [fr])
             self._connect([(b if isinstance(b, int) else b[0], "back") for b in body_end], n)
             const_true = isinstance(st.test, ast.Constant) and bool(st.test.value)
-            out = [] if const_true else [(n, "false")]
+            out = [] if const_true else ([(n, "false")] if st.orelse else [self._join(n, "false")])
             if st.orelse:
                 out = self._build_block(st.orelse, out, frames)
             return out + fr["breaks"]
@@ -125,7 +134,7 @@ class CFG:
             fr = {"type": "loop", "head": n, "breaks": []}
             body_end = self._build_block(st.body, [(n, "true")], frames + [fr])
             self._connect([(b if isinstance(b, int) else b[0], "back") for b in body_end], n)
-            out = [(n, "false")]
+            out = [(n, "false")] if st.orelse else [self._join(n, "false")]
             if st.orelse:
                 out = self._build_block(st.orelse, out, frames)
             return out + fr["breaks"]
